@@ -139,6 +139,16 @@ class Ctx:
         ca, cb = const_of(a), const_of(b)
         if ca is not None and cb is not None:
             return ca < cb
+        if ca is not None:
+            # integer reasoning on constants: c' <= b with c' > c, c' < b with c' >= c, and (unsigned) b != 0 for c == 0
+            for r in self.rels:
+                c2 = const_of(r[1]) if len(r) > 2 else None
+                if r[0] == "le" and c2 is not None and c2 > ca and r[2] == b:
+                    return True
+                if r[0] == "lt" and c2 is not None and c2 >= ca and r[2] == b:
+                    return True
+                if ca == 0 and r[0] == "ne" and ((r[1] == b and const_of(r[2]) == 0) or (r[2] == b and const_of(r[1]) == 0)):
+                    return True
         for r in self.rels:
             if r[0] == "lt" and r[1] == a and (r[2] == b or self.le(r[2], b, 1)):
                 return True
